@@ -32,7 +32,15 @@ func newMemRun() runner {
 
 func (r *memRun) close() { close(r.stop) }
 
+func memNS(ns string) string {
+	if ns == "-" {
+		return "" // cluster-scoped
+	}
+	return ns
+}
+
 func memCfg(ns, name, val, rv string) config.Config {
+	ns = memNS(ns)
 	return config.Config{
 		Meta: config.Meta{
 			GroupVersionKind:  gvk.ServiceEntry,
@@ -48,7 +56,12 @@ func memCfg(ns, name, val, rv string) config.Config {
 
 func memTok(c config.Config) string { return c.Labels["val"] + "@" + c.ResourceVersion }
 
-func memKey(c config.Config) string { return c.Namespace + "/" + c.Name }
+func memKey(c config.Config) string {
+	if c.Namespace == "" {
+		return c.Name
+	}
+	return c.Namespace + "/" + c.Name
+}
 
 func memErr(err error) string {
 	switch {
@@ -73,26 +86,36 @@ func (r *memRun) step(toks []string) (string, string) {
 			return memErr(err), line
 		}
 		return "ok:" + rv, line
-	case toks[0] == "m.update" && len(toks) == 6:
+	case (toks[0] == "m.update" || toks[0] == "m.status") && len(toks) == 6:
 		rv := toks[4]
 		if rv == "-" {
 			rv = ""
 		}
 		c := memCfg(toks[1], toks[2], toks[3], rv)
 		c.Annotations = map[string]string{memory.ResourceVersion: toks[5]}
-		nrv, err := r.ctl.Update(c)
+		var nrv string
+		var err error
+		if toks[0] == "m.status" {
+			nrv, err = r.ctl.UpdateStatus(c)
+		} else {
+			nrv, err = r.ctl.Update(c)
+		}
 		if err != nil {
 			return memErr(err), line
 		}
 		return "ok:" + nrv, line
 	case toks[0] == "m.delete" && len(toks) == 3:
-		return memErr(r.ctl.Delete(gvk.ServiceEntry, toks[2], toks[1], nil)), line
+		return memErr(r.ctl.Delete(gvk.ServiceEntry, toks[2], memNS(toks[1]), nil)), line
 	case toks[0] == "m.get" && len(toks) == 3:
-		c := r.ctl.Get(gvk.ServiceEntry, toks[2], toks[1])
+		c := r.ctl.Get(gvk.ServiceEntry, toks[2], memNS(toks[1]))
 		if c == nil {
 			return "m.get none", line
 		}
-		if memKey(*c) != toks[1]+"/"+toks[2] {
+		want := toks[1] + "/" + toks[2]
+		if toks[1] == "-" {
+			want = toks[2]
+		}
+		if memKey(*c) != want {
 			return "m.get wrong-key", line
 		}
 		return "m.get " + memTok(*c), line
@@ -153,7 +176,7 @@ func genMemCase(r *wire.Rng, n int, w *wire.Out) {
 	names := []string{"a", "b", "c"}
 	nops := 4 + r.Intn(40)
 	for i := 0; i < nops; i++ {
-		ns, name := wire.Pick(r, nss), wire.Pick(r, names)
+		ns, name := wire.Pick(r, []string{"n1", "n2", "n1", "n2", "-"}), wire.Pick(r, names)
 		if len(cur) > 0 && r.Chance(60, 100) { // prefer an existing object
 			ks := make([]string, 0, len(cur))
 			for k := range cur {
@@ -161,9 +184,16 @@ func genMemCase(r *wire.Rng, n int, w *wire.Out) {
 			}
 			sort.Strings(ks)
 			p := strings.SplitN(wire.Pick(r, ks), "/", 2)
-			ns, name = p[0], p[1]
+			if len(p) == 2 {
+				ns, name = p[0], p[1]
+			} else {
+				ns, name = "-", p[0]
+			}
 		}
 		k := ns + "/" + name
+		if ns == "-" {
+			k = name
+		}
 		switch x := r.Intn(100); {
 		case x < 25:
 			if _, f := cur[k]; f && r.Chance(70, 100) { // mostly create something new
@@ -183,7 +213,7 @@ func genMemCase(r *wire.Rng, n int, w *wire.Out) {
 				rv = "stale"
 			}
 			nr := newRV()
-			w.Line("m.update", ns, name, wire.Pick(r, vals), rv, nr)
+			w.Line(wire.Pick(r, []string{"m.update", "m.update", "m.status"}), ns, name, wire.Pick(r, vals), rv, nr)
 			if o, f := cur[k]; f && (rv == "-" || rv == o.rv) {
 				cur[k] = obj{nr}
 			}
